@@ -143,7 +143,9 @@ def standard_units(tier):
     if thorough:
         out += l1_units(3, 2, envs=ENVS_ALL)
     else:
-        out += l1_units(2, 2, envs=ENVS_QUICK)
+        # quick: every pair of deviations (K=2) under EXPLICIT TAGS, every single deviation under AUTOMATIC TAGS
+        out += l1_units(2, 2, envs=(('EXPLICIT', False),))
+        out += l1_units(2, 1, envs=(('AUTOMATIC', False),))
     out += l2_units(thorough, envs=ENVS_QUICK if not thorough else ENVS_ALL)
     out += family_units(envs=ENVS_QUICK if not thorough else ENVS_ALL)
     return out
